@@ -21,8 +21,14 @@ def gen_cases(chk):
         c["cfg"]["prec"] = None
         if c.get("rl"):
             c["palette"] = [abs(x) + 0.125 for x in c["palette"]]
+        if i % 10 == 7:
+            # (round 4) calibrator seeds at the edges of the ranges a guard may single out: 0 (falsy), 1, the 32- and 64-bit limits
+            c["seed"] = SEED_EDGES[(i // 10) % len(SEED_EDGES)]
         cases.append(c)
     return cases
+
+
+SEED_EDGES = [0, 1, 2**31 - 1, 2**31, 2**32 - 1, 2**32, 2**63 - 1, 2**63, 2**64 + 3]
 
 
 def reseed_forgets_ctor(chk, stats):
@@ -126,9 +132,290 @@ def rl_twins(chk, stats):
     return count
 
 
+# ---------------------------------------------------------------------------------------------- round 4: generator sweep
+_STASH = {}
+
+
+def _hook_args_repr(args, spec):
+    """The same configuration in another representation: bounds as a Fortran-ordered float array, precisions as an array,
+    real data as a read-only Fortran-ordered array, numpy integers for the ensemble size and the seed."""
+    import numpy as np
+
+    a = dict(args)
+    a["parameters_bounds"] = np.asfortranarray(np.array(args["parameters_bounds"], dtype=float))
+    a["parameters_precision"] = np.array(args["parameters_precision"], dtype=float)
+    # Fortran-ordered (what DataFrame.to_numpy() returns) and read-only.  Not for LikelihoodLoss: its value depends on the
+    # memory layout of the real data in the last bits (numpy reductions follow the strides), so for that loss two arrays of
+    # different layout are not the same configuration bit for bit; the defect this causes - a restore changes the layout behind
+    # the user's back - is C05's known finding `likelihood-real-data-layout`
+    rd = np.array(args["real_data"]) if spec["loss"] == "likelihood" else np.asfortranarray(np.array(args["real_data"]))
+    rd.setflags(write=False)
+    a["real_data"] = rd
+    a["ensemble_size"] = np.int64(args["ensemble_size"])
+    a["random_state"] = np.int64(args["random_state"]) if args["random_state"] < 2**63 else args["random_state"]
+    return a
+
+
+def _hook_args_neutral(args, spec):
+    """Construct with OTHER values of the reassignable attributes (seed, n_jobs, verbosity, folder); `_hook_cal_assign`
+    then assigns the wanted ones: the values in force are the assigned ones."""
+    _STASH["assign"] = {k: args[k] for k in ("random_state", "n_jobs", "verbose", "saving_folder")}
+    a = dict(args)
+    a.update(random_state=(args["random_state"] + 4242) % 2**31, n_jobs=1 if args["n_jobs"] != 1 else 2, verbose=not args["verbose"],
+             saving_folder=None)
+    return a
+
+
+def _hook_cal_assign(cal, spec):
+    o = _STASH.pop("assign")
+    cal.random_state = o["random_state"]
+    cal.n_jobs = o["n_jobs"]
+    cal.verbose = o["verbose"]
+    cal.saving_folder = o["saving_folder"]
+
+
+def _hook_samplers_bs(samplers, spec):
+    """Every sampler is constructed with ANOTHER batch size and gets the wanted one assigned afterwards."""
+    out = []
+    for s0, (k, bs) in zip(samplers, spec["kinds"]):
+        s1 = rl.make_sampler(k, bs + 1, s0.random_state, *([spec["sampler_opts"]] if spec.get("sampler_opts") else []))
+        s1.batch_size = bs
+        out.append(s1)
+    return out
+
+
+def _hook_samplers_used(samplers, spec):
+    """The very sampler objects have been used before, by another calibration (three parameters, another seed, another
+    loss).  For the seven classes whose state is their generator, their sequence cursor and a model refitted at every call, the
+    reseeding at batch 0 must make that past invisible.  (A used particle swarm / CORS sampler carries its swarm / its batch
+    counter on purpose - C05 depends on that - and is a different line-up from a fresh one: not generated here.)"""
+    import contextlib
+    import io
+
+    import numpy as np
+
+    other = rl.build({"kinds": [("halton", 4)], "nparams": 3, "E": 1, "seed": 5, "loss": "msm", "rl": False})
+    other.set_samplers([other.scheduler.samplers[0], *samplers])
+    with contextlib.redirect_stdout(io.StringIO()), np.errstate(all="ignore"):
+        other.calibrate(len(samplers) + 2)
+    return samplers
+
+
+def _hook_args_share(args, spec):
+    """The second calibrator is built from the very argument objects (loss, real data, bounds, precisions) of the first."""
+    if "share" in _STASH:
+        a = dict(args)
+        for k in ("loss_function", "real_data", "parameters_bounds", "parameters_precision"):
+            a[k] = _STASH["share"][k]
+        return a
+    _STASH["share"] = args
+    return args
+
+
+rl.HOOKS.update({"c01:repr": _hook_args_repr, "c01:neutral": _hook_args_neutral, "c01:assign": _hook_cal_assign,
+                 "c01:bs": _hook_samplers_bs, "c01:used": _hook_samplers_used, "c01:share": _hook_args_share})
+
+STATELESS7 = ["halton", "rseq", "uniform", "bestbatch", "rf", "xgb", "gp"]
+
+
+def _prefill(folder, spec):
+    """a folder that already holds the checkpoint of ANOTHER calibration (other shape, other loss, other seed)"""
+    other = {"kinds": [("uniform", 2), ("halton", 1)], "nparams": 1 + spec["nparams"] % 3, "E": 1 + spec["E"] % 2, "seed": 99,
+             "loss": "msm" if spec["loss"] != "msm" else "minkowski", "rl": False}
+    rl.run_segments(other, [2], [], folder=str(folder))
+
+
+def run_variant(spec, n, kw, tag="v"):
+    """One run of `spec` for n batches under the keyword arguments kw of real_lineups.build; kw["folder"] may be "F" (a fresh
+    folder) or "USED" (a folder holding another calibration's checkpoint)."""
+    kw = dict(kw)
+    folder = None
+    if kw.get("folder") in ("F", "USED"):
+        folder = rl.scratch(f"c01_{tag}")
+        if kw["folder"] == "USED":
+            _prefill(folder, spec)
+        kw["folder"] = str(folder)
+    try:
+        return rl.run_segments(spec, [n], [], **kw)
+    finally:
+        if folder:
+            shutil.rmtree(folder, ignore_errors=True)
+
+
+def compare(chk, stats, scen, spec, n, variants, base_kw=None):
+    """base = spec run plainly; every variant (name, spec', kw) must reproduce its history and return value bit for bit."""
+    _STASH.clear()
+    base = run_variant(spec, n, base_kw or {}, tag="base")
+    count = 0
+    for name, vspec, kw in variants:
+        vspec = vspec or spec
+        count += 1
+        stats[f"sweep:{scen}:{name}"] += 1
+        try:
+            h = run_variant(vspec, n, kw, tag=name)
+            d = rl.diff(base, h)
+            what = f"changes {d}"
+        except Exception as e:  # noqa: BLE001
+            d = ["raises"]
+            what = f"raises {type(e).__name__}: {e}"
+        if d:
+            chk.violation({"kind": "oracle", "clause": f"history-depends-on-{name}", "scenario": scen},
+                          {"failed": "oracle:twin", "detail": f"[{scen}] line-up {spec['kinds']} loss {spec['loss']} seed {spec['seed']} "
+                                                              f"rl={spec.get('rl')}: variant {name} {kw} {what}",
+                           "case": {"spec": spec, "n": n, "variant": name, "kw": kw, "vspec": vspec, "base_kw": base_kw or {}}})
+    return count
+
+
+def cheap_lineup(rng, pool=None, k=None):
+    pool = pool or rl.CHEAP
+    k = k or rng.randint(2, 3)
+    kinds = [(rng.choice(pool), rng.randint(1, 3)) for _ in range(k)]
+    kinds[0] = (rng.choice(["halton", "rseq", "uniform"]), max(3, max(b for _, b in kinds)))
+    return kinds
+
+
+def sweep_twins(chk, stats):
+    """Round 4: configurations, representations, reuse and reassignment the earlier twins did not reach (see design.d/C01.md)."""
+    rng = chk.rng
+    quick = chk.tier == "quick"
+    reps = 1 if quick else 5
+    count = 0
+    std = [("same", None, {}), ("ctor-seeds", None, dict(ctor_seed_shift=17))]
+    for rep in range(reps):
+        pool = rl.CHEAP if quick else rl.ALL9
+        mk = lambda **kw: dict({"kinds": cheap_lineup(rng, pool), "nparams": rng.randint(1, 4), "E": rng.randint(1, 3),  # noqa: E731
+                                "seed": rng.below(2**31), "loss": rng.choice(["minkowski", "msm", "fourier", "gsl", "likelihood"]),
+                                "rl": False}, **kw)
+        # 1. calibrator seeds at the edges (0 is falsy; beyond 32 and 64 bits) and numpy-typed seeds
+        for seed in [0, 2**32 - 1, 2**32 + rng.below(1000), 2**63 + rng.below(1000)]:
+            spec = mk(seed=seed)
+            count += compare(chk, stats, "seed-edge", spec, 3, std + ([("njobs2", None, dict(n_jobs=2))] if seed == 0 else []))
+        spec = {"kinds": [("halton", 3), ("uniform", 2), ("rseq", 2)], "nparams": 2, "E": 1, "seed": 0, "loss": "minkowski", "rl": True,
+                "eps": 0.9, "model": "small_model"}
+        count += compare(chk, stats, "seed-edge-rl", spec, 8, std + [("ctor-seeds", None, dict(ctor_seed_shift=None))])
+        # 2. an explicitly constructed scheduler with its own seed - the same seed as the calibrator's (what a user who passes
+        #    one seed everywhere does) and another one; and no explicit scheduler at all
+        for sseed_same in (True, False):
+            spec = mk()
+            spec["sched_seed"] = spec["seed"] if sseed_same else rng.below(10**6)
+            noexp = {k: v for k, v in spec.items() if k != "sched_seed"}
+            count += compare(chk, stats, "scheduler-ctor-seed", spec, 4,
+                             [("ctor-seeds", None, dict(ctor_seed_shift=17)), ("ctor-seeds", None, dict(ctor_seed_shift=None)),
+                              ("implicit-scheduler", noexp, {}), ("same", None, {})])
+        spec = {"kinds": [("halton", 3), ("uniform", 2), ("bestbatch", 2)], "nparams": 2, "E": 1, "seed": rng.below(2**31), "loss": "minkowski",
+                "rl": True, "eps": 0.9, "model": "small_model"}
+        spec["sched_seed"] = spec["seed"]
+        count += compare(chk, stats, "scheduler-ctor-seed-rl", spec, 8,
+                         [("ctor-seeds", None, dict(ctor_seed_shift=17)), ("implicit-scheduler", {k: v for k, v in spec.items() if k != "sched_seed"}, {})])
+        # 2b. verbosity with a reward-driven RL agent and losses in small units (seeded change C01-7: the losses handed to the
+        #     scheduler were the two-decimal ones of the log).  Measured on that change: one such twin differs with probability
+        #     0.3-0.55 (eps 0-0.2, 10-30 batches; 0.07 at eps 0.9), so the three twins of rl_twins caught it by luck (0.45 chance
+        #     of a miss); twelve nearly greedy ones miss with probability < 0.001
+        for j in range(12):
+            spec = {"kinds": [("halton", 3), (rng.choice(["uniform", "rseq"]), 2), (rng.choice(["rseq", "bestbatch", "uniform"]), 2)],
+                    "nparams": 2, "E": 1, "seed": rng.below(2**31), "loss": "minkowski", "rl": True, "eps": 0.1, "model": "small_model"}
+            count += compare(chk, stats, "rl-verbose-small-units", spec, 12, [("verbose", None, dict(verbose=True))])
+        # 3. every surrogate class in one line-up (the quick tier's random line-ups hold one only by chance)
+        spec = {"kinds": [("halton", 6), ("rf", 2), ("xgb", 2), ("gp", 2)], "nparams": rng.randint(1, 3), "E": 1, "seed": rng.below(2**31),
+                "loss": "minkowski", "rl": False}
+        count += compare(chk, stats, "all-surrogates", spec, 5, std + [("njobs2", None, dict(n_jobs=2))])
+        # 4. model runs of unequal duration: with several workers they complete in another order than they were dispatched in
+        spec = mk(model="uneven_model", E=3, kinds=[("halton", 3), ("uniform", 3)], loss="minkowski")
+        count += compare(chk, stats, "uneven-run-times", spec, 2, [("njobs2", None, dict(n_jobs=2))] + ([] if quick else [("njobs4", None, dict(n_jobs=4))]))
+        # 5. what the model returns: float32 / Fortran-ordered / read-only views, nested lists
+        for m in ("f32_model", "list_model"):
+            spec = mk(model=m)
+            count += compare(chk, stats, f"model-returns:{m}", spec, 3, [("same", None, {}), ("njobs2", None, dict(n_jobs=2))])
+        # 6. a saving folder that already holds another calibration; every flag at once
+        spec = mk()
+        count += compare(chk, stats, "used-folder", spec, 3, [("used-folder", None, dict(folder="USED")),
+                                                              ("all-flags", None, dict(folder="USED", verbose=True, n_jobs=2, ctor_seed_shift=17))])
+        # 7. non-default configuration: simulation length other than the data length, a convergence precision that stops the
+        #    run early (0 included), a search space smaller than the batches drawn from it, non-default sampler and loss options
+        spec = mk(sim_length=30, loss=rng.choice(["msm", "gsl", "likelihood"]))
+        count += compare(chk, stats, "sim-length", spec, 3, std + [("njobs2", None, dict(n_jobs=2)), ("folder", None, dict(folder="F"))])
+        spec = mk(conv_prec=rng.choice([0, 1]), model="small_model", loss="minkowski")
+        count += compare(chk, stats, "early-stop", spec, 5, std + [("verbose", None, dict(verbose=True)), ("folder", None, dict(folder="F")),
+                                                                  ("njobs2", None, dict(n_jobs=2))])
+        spec = mk(nparams=2, bounds=[[0.0, 0.0], [0.03, 0.02]])
+        count += compare(chk, stats, "small-space", spec, 5, std)
+        spec = mk(sampler_opts="nondefault", loss_variant="nondefault", kinds=cheap_lineup(rng, rl.ALL9, 4))
+        count += compare(chk, stats, "non-default-options", spec, 5, std + [("njobs2", None, dict(n_jobs=2))])
+        # 8. attributes assigned after construction are the ones in force
+        spec = mk()
+        count += compare(chk, stats, "assigned-after-construction", spec, 3,
+                         [("assigned", None, dict(hooks={"args": "c01:neutral", "cal": "c01:assign"})),
+                          ("assigned", None, dict(hooks={"args": "c01:neutral", "cal": "c01:assign"}, n_jobs=2, verbose=True, folder="F")),
+                          ("batch-size-assigned", None, dict(hooks={"samplers": "c01:bs"}))])
+        # 9. the same configuration in another representation (with a model that writes into its parameter vector)
+        spec = mk(model="mut_model", E=rng.choice([1, 2]), loss=rng.choice(["minkowski", "msm", "fourier", "gsl"]))
+        count += compare(chk, stats, "representation", spec, 3, [("representation", None, dict(hooks={"args": "c01:repr"})),
+                                                                  ("representation", None, dict(hooks={"args": "c01:repr"}, n_jobs=2))])
+        # 10. reuse: sampler objects another calibration has used (the seven reseed-complete classes); argument objects shared by
+        #     two calibrators
+        ks = list(STATELESS7)
+        rng.shuffle(ks)
+        spec = {"kinds": [("halton", 4)] + [(k, 2) for k in (ks[:3] if quick else ks)], "nparams": 2, "E": 1, "seed": rng.below(2**31),
+                "loss": "minkowski", "rl": False}
+        count += compare(chk, stats, "used-samplers", spec, len(spec["kinds"]) + 1, [("used-samplers", None, dict(hooks={"samplers": "c01:used"}))])
+        spec = mk()
+        count += compare(chk, stats, "shared-arguments", spec, 3, [("shared-arguments", None, dict(hooks={"args": "c01:share"}))],
+                         base_kw=dict(hooks={"args": "c01:share"}))
+    return count
+
+
+def reseed_forgets_use(chk, stats):
+    """Component level (round 4): a sampler of one of the seven reseed-complete classes that has ALREADY WORKED (on a space of
+    another dimension, several calls) is, after `random_state = k`, indistinguishable from a fresh one: the next proposals are
+    bitwise equal (the fitted surrogate it still holds is refitted before use; its cursor and generator restart)."""
+    import contextlib
+    import io
+
+    import numpy as np
+    from black_it.search_space import SearchSpace
+
+    rng = chk.rng
+    n = 0
+    with contextlib.redirect_stdout(io.StringIO()):
+        big = SearchSpace([[0.0, 0.0, 0.0], [1.0, 1.0, 1.0]], [0.01, 0.01, 0.01], False)
+        small = SearchSpace([[-1.0, 0.0], [1.0, 2.0]], [0.01, 0.02], False)
+    for kind in STATELESS7:
+        for _ in range(3 if chk.tier == "quick" else 20):
+            k, s1, s2 = rng.below(2**32 - 1), rng.below(10**6), rng.below(10**6)
+            bs = rng.randint(1, 3)
+            g = np.random.default_rng(rng.below(2**31))
+            used, fresh = rl.make_sampler(kind, bs, s1), rl.make_sampler(kind, bs, s2)
+            pts3, pts2 = big.param_grid, small.param_grid
+            hist3 = np.column_stack([g.choice(col, size=12) for col in pts3])
+            hist2 = np.column_stack([g.choice(col, size=10) for col in pts2])
+            l3, l2 = g.random(12), g.random(10)
+            with contextlib.redirect_stdout(io.StringIO()), np.errstate(all="ignore"):
+                for _j in range(rng.randint(1, 3)):
+                    used.sample(big, hist3, l3)
+                used.random_state = k
+                fresh.random_state = k
+                a = [used.sample(small, hist2, l2).tobytes() for _j in range(2)]
+                b = [fresh.sample(small, hist2, l2).tobytes() for _j in range(2)]
+            n += 1
+            stats[f"reseed-after-use:{kind}"] += 1
+            if a != b:
+                chk.violation({"kind": "oracle", "clause": "reseed-keeps-state-of-use", "sampler": kind},
+                              {"failed": "oracle:reseed", "detail": f"{kind}: a sampler used on a 3-parameter space and then reseeded with {k} "
+                                                                    f"proposes other points than a fresh one reseeded with {k}",
+                               "case": {"kind": kind, "k": k, "s1": s1, "s2": s2, "bs": bs}})
+    return n
+
+
 def run(chk, replay=None):
     chk.proof_gate()
     cases = [json.loads(open(replay).read())["case"]] if replay else gen_cases(chk)
+    if replay and "vspec" in cases[0]:
+        c = cases[0]
+        _STASH.clear()
+        base = run_variant(c["spec"], c["n"], c.get("base_kw") or {}, tag="base")
+        d = rl.diff(base, run_variant(c["vspec"], c["n"], c["kw"], tag="replay"))
+        print("differs in", d)
+        return 1 if d else 0
     if replay and "spec" in cases[0]:
         c = cases[0]
         kw = c.get("kw") or {"same": {}, "ctor-seeds": dict(ctor_seed_shift=17), "verbose": dict(verbose=True), "njobs2": dict(n_jobs=2),
@@ -140,6 +427,9 @@ def run(chk, replay=None):
     extra = Counter()
     n1 = reseed_forgets_ctor(chk, extra) if not replay else 0
     n2 = (twin_runs(chk, extra) + rl_twins(chk, extra)) if not replay else 0
+    # round 4 parts after the older ones, so that those see the same random draws as before
+    n1 += reseed_forgets_use(chk, extra) if not replay else 0
+    n2 += sweep_twins(chk, extra) if not replay else 0
     stats.update(extra)
     cov = {
         "evaluations": len(cases) + n1 + n2, "distinct": len(keys) + n1 + n2, "distinct_nontrivial": len(nontriv) + n1 + n2,
@@ -147,7 +437,13 @@ def run(chk, replay=None):
                 "model call are compared with the model's seed cascade on the recorded stream; (b) for each of the nine built-in sampler "
                 "classes two objects with different constructor seeds are compared (pickle bytes) after random_state = k; (c) real "
                 "line-ups (nine samplers, five losses, 1-4 parameters, round-robin and single-session RL) run twice and with other "
-                "constructor seeds, verbose, n_jobs=2 (4 in thorough) and a saving folder: histories and return values bitwise equal",
+                "constructor seeds, verbose, n_jobs=2 (4 in thorough) and a saving folder: histories and return values bitwise equal; "
+                "(d, round 4) the same twin comparison over seeds 0 / 2^32 / 2^63 / numpy integers, explicitly constructed schedulers "
+                "with their own seed, all three surrogate classes, model runs of unequal duration under several workers, models "
+                "returning float32 views or lists, a used saving folder, simulation length != data length, early stop, an exhausted "
+                "search space, non-default sampler and loss options, attributes assigned after construction, arguments in another "
+                "representation, sampler objects used before (seven reseed-complete classes) and shared argument objects; (e) a "
+                "used sampler of those seven classes proposes, after random_state = k, what a fresh one does",
         "samples": cf.sample_cases(cases, obs),
         "traces_validated_against_impl": len(cases) - len(bad), "model_impl_disagreements": len(bad),
         "distribution": dict(sorted(stats.items())),
